@@ -348,7 +348,7 @@ struct Ex {
       std::string s; llvm::raw_string_ostream os(s); MD->getParent()->getNameForDiagnostic(os, PrintingPolicy(LangOptions()), true); F["class_inst"] = os.str(); }
     if (auto *FPT = FD->getType()->getAs<FunctionProtoType>()) F["noexcept"] = FPT->isNothrow();
     F["ret"] = FD->getReturnType().getAsString();
-    json::Array params; for (auto *P : FD->parameters()) params.push_back(json::Object{{"name",P->getNameAsString()},{"type",P->getType().getAsString()},{"pack",P->isParameterPack()}}); F["params"] = std::move(params);
+    json::Array params; for (auto *P : FD->parameters()) params.push_back(json::Object{{"name",P->getNameAsString()},{"type",P->getType().getAsString()},{"ctype",P->getType().getCanonicalType().getAsString()},{"pack",P->isParameterPack()}}); F["params"] = std::move(params);
     if (auto *Pat = patternOf(FD)) { json::Array pp; for (auto *P : Pat->parameters()) pp.push_back(json::Object{{"name",P->getNameAsString()},{"type",P->getType().getAsString()},{"pack",P->isParameterPack()}}); F["pattern_params"] = std::move(pp); }
     F["entry"] = cfg->getEntry().getBlockID(); F["exit"] = cfg->getExit().getBlockID();
     int next = 0;
